@@ -12,7 +12,7 @@ From MV Require Import Base.PyStr Inv.WildModel InvLoad.Regex Gen.Inventory InvL
   InvLoad.Reader InvLoad.Load InvLoad.SphinxInv InvLoad.TableCodec
   InvLoad.ReaderProofs InvLoad.LoadProofs InvLoad.TextProofs InvLoad.AgreeProofs
   InvLoad.BadLineProofs InvLoad.RoundtripProofs InvLoad.CodecProofs InvLoad.WitnessProofs
-  InvLoad.Utf8Proofs.
+  InvLoad.Utf8Proofs InvLoad.Cli InvLoad.CliProofs.
 Import ListNotations.
 Open Scope N_scope.
 
@@ -105,7 +105,10 @@ Print Assumptions C18_load_terminates.
      stored under "domain:type"; MyST has no domain with a ':' and Sphinx no key without one;
    and, when the header lines are plain ASCII, the same project name and version.
    Premises: the header lines are valid UTF-8 (MyST decodes them, Sphinx only slices them) and
-   the decoded body contains no line separator other than "\n" (see C18_nosep_needed). *)
+   in the decoded body "\n" is the only line separator, except that a "\r" may stand immediately
+   before a "\n" (CR LF files: MyST splits at "\n" and line.rstrip() drops the "\r", Sphinx's
+   str.splitlines takes "\r\n" as one separator).  Without that premise: C18_nosep_needed, and
+   C18_separator_characterisation says exactly what Sphinx computes instead. *)
 Theorem C18_agrees_with_sphinx :
   forall (dstate : Type) (dinit : dstate) (dstep : dstate -> bytes -> dstate * bytes)
          (dflush : dstate -> bytes) (derr : dstate -> bool) (dz : bytes -> option bytes)
@@ -115,7 +118,7 @@ Theorem C18_agrees_with_sphinx :
   decode_ok decode ->
   forall (cs : list bytes) (uri : str) (base_url : option str) (sinv : sinv_t),
     Forall (fun l => decode l <> None) (firstn 4 (bsplit_nl 4 (live cs))) ->
-    (forall text, sphinx_text dz decode (live cs) = Some text -> nosep text) ->
+    (forall text, sphinx_text dz decode (live cs) = Some text -> crlf_only text) ->
     sphinx_loads dz decode match_line (live cs) uri = IOk sinv ->
     exists inv : inventory,
       load dstate dinit dstep dflush derr decode match_line cs base_url = IOk inv /\
@@ -135,6 +138,47 @@ Theorem C18_nosep_needed :
     ~ agree uri_x (inv_objects inv) sinv.
 Proof. exact nosep_needed. Qed.
 Print Assumptions C18_nosep_needed.
+
+(* a body without any extra separator is a special case of the premise *)
+Theorem C18_nosep_is_crlf_only : forall s : str, nosep s -> crlf_only s.
+Proof. exact nosep_crlf_only. Qed.
+Print Assumptions C18_nosep_is_crlf_only.
+
+(* The disagreement characterised.  str.splitlines of any text = splitting at "\n" the text in
+   which every line separator (\r \v \f FS GS RS NEL LS PS, and "\r\n" as one) is replaced by "\n"; *)
+Theorem C18_sphinx_lines_normalised :
+  forall s : str, splitlines s = trim_last (split_nl (norm_seps s)).
+Proof. exact splitlines_norm. Qed.
+Print Assumptions C18_sphinx_lines_normalised.
+
+(* hence for EVERY body text T, Sphinx's entries for T are MyST's entries for norm_seps T: the two
+   loaders differ on T exactly where MyST's result changes under that normalisation *)
+Theorem C18_separator_characterisation :
+  forall (match_line : str -> option (str * str * str * str * str)) (uri proj ver T : str),
+    agree uri (fold_left (v2_step match_line) (trim_last (split_nl (norm_seps T))) [])
+              (fold_left (sphinx_v2_step match_line uri proj ver) (splitlines T) []).
+Proof. exact separator_characterisation. Qed.
+Print Assumptions C18_separator_characterisation.
+
+Theorem C18_separator_agreement_criterion :
+  forall (match_line : str -> option (str * str * str * str * str)) (uri proj ver T : str),
+    fold_left (v2_step match_line) (trim_last (split_nl T)) [] =
+    fold_left (v2_step match_line) (trim_last (split_nl (norm_seps T))) [] ->
+    agree uri (fold_left (v2_step match_line) (trim_last (split_nl T)) [])
+              (fold_left (sphinx_v2_step match_line uri proj ver) (splitlines T) []).
+Proof. exact separator_agreement_criterion. Qed.
+Print Assumptions C18_separator_agreement_criterion.
+
+(* and every separator other than "\n" does produce a disagreement: in
+   "a py:function 1 a.html -" c "b py:function 1 b.html -\n" Sphinx finds the entry b, MyST does not *)
+Theorem C18_separator_family_refuted :
+  forall c, In c linesep_table -> c <> 10 ->
+    objs_lookup (fold_left (v2_step match_line_exec) (trim_last (split_nl (sep_text c))) [])
+                [112; 121] [102; 117; 110; 99; 116; 105; 111; 110] [98] = None /\
+    sinv_lookup (fold_left (sphinx_v2_step match_line_exec uri_x [] []) (splitlines (sep_text c)) [])
+                k_py_function [98] <> None.
+Proof. exact separator_family. Qed.
+Print Assumptions C18_separator_family_refuted.
 
 (* ------------------------------------------------------------------------------------------
    A malformed line does not disturb the other entries. *)
@@ -159,6 +203,25 @@ Theorem C18_bad_line_isolated :
          [l0 ++ 10 :: l1 ++ 10 :: l2 ++ 10 :: l3 ++ 10 :: z'] base_url.
 Proof. exact bad_line_isolated_v2. Qed.
 Print Assumptions C18_bad_line_isolated.
+
+(* the same for every chunking of the two files (composition with C18_chunking_independent) *)
+Theorem C18_bad_line_isolated_any_chunking :
+  forall (dstate : Type) (dinit : dstate) (dstep : dstate -> bytes -> dstate * bytes)
+         (dflush : dstate -> bytes) (derr : dstate -> bool)
+         (decode : bytes -> option str) (match_line : str -> option (str * str * str * str * str)),
+  zlib_stream_ok dstate dstep derr ->
+  forall (l0 l1 l2 l3 z z' A bad B : bytes) (s : str) (base_url : option str) (cs cs' : list bytes),
+    find_nl l0 = None -> find_nl l1 = None -> find_nl l2 = None -> find_nl l3 = None ->
+    (exists s0, decode l0 = Some s0 /\ rstrip s0 = hdr_v2) ->
+    inflates dstate dinit dstep dflush derr z (A ++ bad ++ 10 :: B) ->
+    inflates dstate dinit dstep dflush derr z' (A ++ B) ->
+    aligned A -> find_nl bad = None -> decode bad = Some s -> v2_malformed match_line s ->
+    live cs = l0 ++ 10 :: l1 ++ 10 :: l2 ++ 10 :: l3 ++ 10 :: z ->
+    live cs' = l0 ++ 10 :: l1 ++ 10 :: l2 ++ 10 :: l3 ++ 10 :: z' ->
+    load dstate dinit dstep dflush derr decode match_line cs base_url =
+    load dstate dinit dstep dflush derr decode match_line cs' base_url.
+Proof. exact bad_line_isolated_v2_chunked. Qed.
+Print Assumptions C18_bad_line_isolated_any_chunking.
 
 (* v1: a blank line is skipped *)
 Theorem C18_blank_line_skipped_v1 :
@@ -214,6 +277,61 @@ Theorem C18_roundtrip_conditions_needed :
   from_sphinx (to_sphinx w_colon_domain) <> w_colon_domain.
 Proof. exact roundtrip_conditions_needed. Qed.
 Print Assumptions C18_roundtrip_conditions_needed.
+
+(* ------------------------------------------------------------------------------------------
+   posixpath.join(a, b) as modelled (compared with CPython by the correspondence run); cited by
+   C19 for the inv-link refuri `posixpath.join(base_url, loc) if base_url else loc`. *)
+Theorem C18_posixpath_join :
+  forall a b : str,
+    (startswith b [47] = true -> pjoin a b = b) /\
+    (startswith b [47] = false -> a = [] -> pjoin a b = b) /\
+    (startswith b [47] = false -> endswith a [47] = true -> pjoin a b = a ++ b) /\
+    (startswith b [47] = false -> a <> [] -> endswith a [47] = false -> pjoin a b = a ++ [47] ++ b).
+Proof. exact pjoin_spec. Qed.
+Print Assumptions C18_posixpath_join.
+
+(* ------------------------------------------------------------------------------------------
+   Glue.  fetch_inventory / inventory_cli: a path that does not start with http:// or https:// is
+   opened as a file; a URL is tried as it is (base = the part before the last "/") and, only if
+   that raises, with "/objects.inv" appended (base = the URL). *)
+Theorem C18_fetch_dispatch :
+  forall (url_load file_load : str -> option str -> ires inventory) (uri : str),
+    (is_http uri = false ->
+       cli_fetch url_load file_load uri = (dob inv <- file_load uri None; IOk (inv, None)) /\
+       forall base, fetch_inventory url_load file_load uri base = file_load uri base) /\
+    (is_http uri = true ->
+       (forall inv, url_load uri None = IOk inv ->
+          cli_fetch url_load file_load uri = IOk (inv, Some (rsplit_slash uri))) /\
+       (forall e, url_load uri None = IRaise e ->
+          cli_fetch url_load file_load uri =
+          (dob inv <- url_load (uri ++ s_objects_inv) None; IOk (inv, Some uri))) /\
+       forall base, fetch_inventory url_load file_load uri base = url_load uri base).
+Proof. exact fetch_dispatch. Qed.
+Print Assumptions C18_fetch_dispatch.
+
+(* every inventory load returns has unique keys at the three levels ... *)
+Theorem C18_load_unique_keys :
+  forall (dstate : Type) (dinit : dstate) (dstep : dstate -> bytes -> dstate * bytes)
+         (dflush : dstate -> bytes) (derr : dstate -> bool)
+         (decode : bytes -> option str) (match_line : str -> option (str * str * str * str * str))
+         (cs : list bytes) (base_url : option str) (inv : inventory),
+    load dstate dinit dstep dflush derr decode match_line cs base_url = IOk inv ->
+    wf_keys (inv_objects inv).
+Proof. exact load_wf_keys. Qed.
+Print Assumptions C18_load_unique_keys.
+
+(* ... and for such an inventory the CLI's loop keeps exactly the entries whose domain, object
+   type and name match the -d/-o/-n patterns and whose location matches -l (no -l or -l "": all) *)
+Theorem C18_cli_filter_exact :
+  forall (qd qo qt : str) (loc : option str) (d t n : str) (inv : inventory) (base_url : option str),
+    wf_keys (inv_objects inv) ->
+    objs_lookup (inv_objects (cli_filter inv base_url qd qo qt loc)) d t n =
+    match objs_lookup (inv_objects inv) d t n with
+    | Some it => if W d qd && W t qo && W n qt && loc_ok loc (it_loc it) then Some it else None
+    | None => None
+    end.
+Proof. exact cli_filter_lookup. Qed.
+Print Assumptions C18_cli_filter_exact.
 
 (* ------------------------------------------------------------------------------------------
    The oracle hypotheses are satisfiable: the table decompressor of the model runner and the
